@@ -986,6 +986,46 @@ func CheckTypedReadback(rep Reporter, eng Engine, ts *rs.TypeSystem, t *rs.Type,
 			}
 		}
 	}
+	// Node.Prototype() is part of the node API: the prototype a typed node names builds the same value again from
+	// the input of ITS OWN level — the type-level node's from the type-level input, the representation node's from
+	// the representation.
+	if rng != nil {
+		rv, rerr := ts.ReprOf(t, tv)
+		for _, lvl := range []string{"type-level", "representation"} {
+			var out Outcome
+			func() {
+				defer func() {
+					if r := recover(); r != nil {
+						out = Outcome{Panic: fmt.Sprint(r)}
+					}
+				}()
+				if lvl == "type-level" {
+					p := o.Node.Prototype()
+					if hasComplexKeys(ts, t, map[string]bool{}, false) {
+						out = FeedTyped(p, ts, t, in)
+					} else {
+						out = Feed(p, in)
+					}
+				} else if rerr == nil {
+					out = Feed(repr(o.Node).Prototype(), rv)
+				} else {
+					out = Outcome{Accepted: true, Node: o.Node}
+				}
+			}()
+			rep.Count("typed_node_prototype_rebuilds", 1)
+			ctx := fmt.Sprintf("engine %s, type %s, value %s", eng.Name(), t.Name, clip(tv.Dump(), 400))
+			switch {
+			case out.Panic != "":
+				rep.Deviate("C01:typed:node-prototype:panic:"+lvl+":"+sig, fmt.Sprintf("building through the %s node's own Prototype() panicked: %s\n%s", lvl, out.Panic, ctx))
+			case !out.Accepted:
+				rep.Deviate("C01:typed:node-prototype:rejects-own-level-input:"+lvl+":"+sig, fmt.Sprintf("the builder of the %s node's own Prototype() refused the %s input of the value the node holds: %v\n%s", lvl, lvl, out.Err, ctx))
+			default:
+				if got := ReadTyped(out.Node); !model.Equal(got, tv) {
+					rep.Deviate("C01:typed:node-prototype:readback-differs:"+lvl+":"+sig, fmt.Sprintf("%s\nrebuilt through the %s node's own Prototype(): reads back %s, expected %s\n%s", model.FirstDiff(got, tv), lvl, clip(got.Dump(), 400), clip(tv.Dump(), 400), ctx))
+				}
+			}
+		}
+	}
 	for _, lvl := range []string{"type-level", "representation"} {
 		n := o.Node
 		if lvl == "representation" {
